@@ -423,6 +423,64 @@ fn window_only_pairs(run: &Run, total: &mut Ctx) {
     total.merge(c);
 }
 
+/// prefix law on long structured series (DESIGN 5.14): f(x)[..k] == f(x[..k]) bit for bit for cuts near the
+/// end and in the middle, windows up to len+1
+fn prefix_long(run: &Run, total: &mut Ctx) {
+    let fam = "prefix-long";
+    let lens: Vec<usize> = if run.quick() { vec![40] } else { vec![40, 130, 270] };
+    let ty = ty_v1::<f64, f64>();
+    let mut items: Vec<(String, Vec<X>)> = vec![];
+    for len in lens {
+        items.extend(structured_shapes(len, false));
+    }
+    total.merge(par_items(&items, run.threads, |(label, x), ctx| {
+        let len = x.len();
+        ctx.states += 1;
+        ctx.fam(fam).states += 1;
+        ctx.nontrivial(fam, hash_bytes(format!("{label}{len}").as_bytes()));
+        let mut ws = vec![2usize, 12, 16, 17, 33, 256, 257, len - 1, len + 1];
+        ws.retain(|w| *w <= len + 1);
+        ws.sort();
+        ws.dedup();
+        for w in ws {
+            for mp in [None, Some(1), Some(w)] {
+                for &f in &valid_fns() {
+                    let whole = match (ty.run)(f, x, w, mp, Path::Ret) {
+                        Some(Outcome::Ok(c)) => c,
+                        _ => continue,
+                    };
+                    ctx.eval(fam, hash_cells(&whole));
+                    for k in [len - 1, len - 5, len / 2, 17] {
+                        // DESIGN 5.3: omitted min_periods of the extrema / rank family only when the prefix is >= w long
+                        if f.is_cmp() && mp.is_none() && k < w {
+                            continue;
+                        }
+                        let part = match (ty.run)(f, &x[..k], w, mp, Path::Ret) {
+                            Some(Outcome::Ok(c)) => c,
+                            _ => continue,
+                        };
+                        ctx.transitions += 1;
+                        let ok = part.len() == k && whole.len() == len && whole[..k].iter().zip(&part).all(|(a, b)| bit_eq(a, b));
+                        if !ok {
+                            let at = whole.iter().zip(&part).position(|(a, b)| !bit_eq(a, b));
+                            ctx.violation(Violation {
+                                entry: format!("prefix:{}", r1_name(f, true)),
+                                finding: None,
+                                size: 200_000 + len * 10 + w,
+                                case: json!({"family": fam, "shape": label, "len": len, "cut": k, "w": w, "mp": mp_json(mp), "first_difference_at": at}),
+                                expected: format!("f(series)[..{k}] == f(series[..{k}])"),
+                                got: format!("differs at {at:?}: {} vs {}", at.map_or("-".into(), |i| whole[i].show()), at.map_or("-".into(), |i| part[i].show())),
+                            });
+                        } else {
+                            ctx.traces += 1;
+                        }
+                    }
+                }
+            }
+        }
+    }));
+}
+
 fn main() {
     let run = Run::from_args("C06");
     let a5 = alphabet5(run.seed);
@@ -466,6 +524,7 @@ fn main() {
             }
             "prefix-maps" => maps.visit(&word, None, &mut ctx),
             "window-only-pairs" => window_only_pairs(&run, &mut ctx),
+            "prefix-long" => prefix_long(&run, &mut ctx),
             _ => window_only(&run, &mut ctx),
         }
         std::process::exit(finish_replay(&run, &stored, ctx));
@@ -476,6 +535,7 @@ fn main() {
     total.merge(explore_tree(&maps, run.threads));
     window_only(&run, &mut total);
     window_only_pairs(&run, &mut total);
+    prefix_long(&run, &mut total);
     let meta = Meta {
         rule: "(a) prefix law on every edge parent->child of the history trees (single series, null-free plain family, pairs, positive-lag shift/vshift/vdiff/vpct_change with n in 0..=len+2 and every fill): f(child)[..len-1] == f(parent) bit for bit, for every window and min_periods; by induction every cut point. (b) window-only dependence: for every window word W (|W|<=w_max) and every pre-history A (|A|<=a_max, finite values and nulls), also for the two-series family over pair words: last output of f(A++W) equals that of f(W) (exact for min/max/arg/rank, 1e-9 otherwise). Non-trivial = word with a non-null element; each edge compares the parent's memoised outputs with the child's.".into(),
         bounds: json!({
